@@ -962,8 +962,13 @@ void XdlEncoder::new_string(const char* x)
 			_out << "\\t"; break;
 		case '\f':
 			_out << "\\f"; break;
+		case '\b':
+			_out << "\\b"; break;
 		default:
-			_out << c;
+			if ((unsigned char)c < ' ') // other control characters must not appear raw in a JSON string
+				_out << String::f("\\u%04x", c);
+			else
+				_out << c;
 		}
 	}
 	_out << '\"';
